@@ -1,6 +1,7 @@
 package checks
 
 import (
+	"errors"
 	"fmt"
 
 	"github.com/codenotary/immudb/embedded/store"
@@ -53,6 +54,17 @@ func c01Body(r *simcore.Run) {
 	n := e.verifyHistory("honest server", true)
 	if n < 2 {
 		return
+	}
+	lagging := false
+	if n >= 3 && r.Pct(40) {
+		if lag := c01BuildLagging(r, e, cfg, n); lag != nil {
+			e.st.Close()
+			e = lag
+			lagging = true
+			if m := e.verifyHistory("server holding the re-linked history", true); m != n {
+				r.Violation("lagging-history-altered", "", "the re-linked history has %d transactions, the original %d", m, n)
+			}
+		}
 	}
 	alh := func(id uint64) [32]byte { return e.led[id].Alh }
 	hdrs := make([]*store.TxHeader, n+1)
@@ -111,11 +123,40 @@ func c01Body(r *simcore.Run) {
 				r.Violation("completeness", "", "the honest DualProof(%d -> %d of %d) does not verify against the states the client trusts", i, j, n)
 			}
 			p2, err := e.st.DualProofV2(hdrs[i], hdrs[j])
-			if err != nil {
+			if err != nil && (hdrs[i].BlTxID != i-1 || hdrs[j].BlTxID != j-1) && errors.Is(err, store.ErrUnexpectedLinkingError) {
+				// the second proof format is defined for fully linked headers only and says so
+				r.Probe("c01-v2-refuses-lagging-headers")
+				p2 = nil
+			} else if err != nil {
 				r.Violation("completeness", "", "the honest server cannot produce DualProofV2(%d,%d): %v", i, j, err)
 			}
-			if err := store.VerifyDualProofV2(p2, i, j, alh(i), alh(j)); err != nil {
-				r.Violation("completeness", "", "the honest DualProofV2(%d -> %d of %d) does not verify: %v", i, j, n, err)
+			if p2 != nil {
+				if err := store.VerifyDualProofV2(p2, i, j, alh(i), alh(j)); err != nil {
+					r.Violation("completeness", "", "the honest DualProofV2(%d -> %d of %d) does not verify: %v", i, j, n, err)
+				}
+			}
+			// soundness: coordinated forger (re-rooted / re-chained tree inside the trusted range)
+			for k := 0; k < 3; k++ {
+				fp, claim, leaf, how := c01Reroot(r, proof, i, j, alh, k == 2)
+				if fp == nil {
+					continue
+				}
+				tampered++
+				ok := false
+				pv, stack := r.Catch(func() { ok = store.VerifyDualProof(fp, i, j, alh(i), claim) })
+				if pv != nil {
+					r.Violation("verifier-panic", "", "VerifyDualProof panicked on a %s: %v\n%s", how, pv, stack)
+				}
+				if ok {
+					r.Logf("forged proof accepted: source %d (BlTxID %d) target %d (BlTxID %d) forged leaf %d: %s", i, hdrs[i].BlTxID, j, hdrs[j].BlTxID, leaf, how)
+					if i > hdrs[j].BlTxID && leaf > hdrs[i].BlTxID {
+						// the trusted transaction lies beyond the target's tree (lagging linking only)
+						r.Finding("soundness-rerooted", "C01:lagging-tree-not-bound-to-trusted-chain", "a client trusting tx %d verified tx %d, which is linked to the tree of size %d < %d, although leaf %d of that tree is not the history's transaction %d (%s): nothing in the dual proof ties the leaves between the trusted transaction's tree size (%d) and the target's to the linear chain the trusted state commits to", i, j, hdrs[j].BlTxID, i, leaf, leaf, how, hdrs[i].BlTxID)
+						continue
+					}
+					r.Violation("soundness-rerooted", "", "a client trusting tx %d (linked to the tree of size %d) verified tx %d (tree of size %d) although leaf %d of that tree is not the history's transaction %d: %s", i, hdrs[i].BlTxID, j, hdrs[j].BlTxID, leaf, leaf, how)
+				}
+				r.Fault("rerooted-tree")
 			}
 			// soundness: tampering adversary on the response path
 			for k := 0; k < 6; k++ {
@@ -244,9 +285,9 @@ func c01Body(r *simcore.Run) {
 		fork.st.Close()
 	}
 	e.st.Close()
-	r.Sig("c01", n, pairs, forkFrom)
+	r.Sig("c01", n, pairs, forkFrom, lagging)
 	r.Fault("tampered-response")
-	r.Sample(map[string]interface{}{"config": cfg, "transactions": n, "state_pairs": pairs, "tampered_responses": tampered, "tampered_accepted_but_true": accepted, "fork_at": forkFrom})
+	r.Sample(map[string]interface{}{"config": cfg, "transactions": n, "state_pairs": pairs, "tampered_responses": tampered, "tampered_accepted_but_true": accepted, "fork_at": forkFrom, "lagging_binary_linking": lagging})
 }
 
 // c01Tamper alters one aspect of a dual-proof response or of the claim it is
